@@ -85,6 +85,12 @@ func c17Counter(c *Ctx) {
 			return
 		}
 		var log []c17Inc
+		// clones live on: each has its own copy of the history at the moment it was made
+		type c17Clone struct {
+			rc  *memmetrics.RollingCounter
+			log []c17Inc
+		}
+		var clones []*c17Clone
 		steps := 50 + r.IntN(c.N(150, 450))
 		script := make([]string, 0, steps)
 		agedOut, lowerPos := false, false
@@ -141,10 +147,36 @@ func c17Counter(c *Ctx) {
 					return
 				}
 			default:
-				if r.IntN(4) == 0 {
+				switch r.IntN(4) {
+				case 0:
 					rc.Reset()
 					log = log[:0]
 					script = append(script, "reset")
+				case 1:
+					if len(clones) < 3 {
+						clones = append(clones, &c17Clone{rc.Clone(), append([]c17Inc(nil), log...)})
+						script = append(script, "keep-clone")
+					}
+				case 2, 3:
+					if len(clones) > 0 {
+						cl := clones[r.IntN(len(clones))]
+						if r.IntN(3) == 0 {
+							v := int64(1 + r.IntN(5))
+							cl.rc.Inc(int(v))
+							cl.log = append(cl.log, c17Inc{now(), v})
+							script = append(script, sfmt("clone-inc%d", v))
+						} else {
+							got := cl.rc.Count()
+							lo, hi := c17Bounds(cl.log, now(), n, res)
+							c.Count("clone_reads", 1)
+							script = append(script, "clone-count")
+							if got < lo || got > hi {
+								c.Violation("window/clone", sfmt("N=%d r=%v: a clone kept since earlier reports Count() = %d outside [%d,%d] of its own history at step %d", n, res, got, lo, hi, s),
+									map[string]any{"buckets": n, "resolution": res.String(), "script": script})
+								return
+							}
+						}
+					}
 				}
 			}
 		}
